@@ -95,6 +95,13 @@ func TestVerifGlob(t *testing.T) {
 		try([]string{p}, append([]string{"[", "]", "a[b]", "[]", "x\\y", "x\\\\y", "\\", "\\\\", "a\\", "*a", "?", "a"}, paths[:40]...))
 		try([]string{p, "a"}, []string{"[", "]", "a[b]", "[]", "x\\y", "\\", "a\\", "*a", "?", "a", "aa"})
 	}
+	// escaped metacharacters next to runs of stars and question marks, against paths that hold
+	// the metacharacters themselves
+	metaPaths := []string{"*", "**", "*a", "*a/b", "*/a", "*gen/out", "a*", "a*b/c", "?", "?a/b", "a?/b", "\\a/b", "a", "a/b", "ab/c", "*?", "?*/x"}
+	for _, p := range []string{"\\*", "\\**", "\\***", "\\****", "a\\***", "\\***/b", "\\*\\**", "\\?**", "\\?*", "\\??", "**\\*", "***", "****", "a***b", "\\\\***", "*\\**", "\\***out"} {
+		try([]string{p}, metaPaths)
+		try([]string{"zz", p}, metaPaths)
+	}
 	// no pattern at all matches nothing; a line break is a character like any other
 	try([]string{}, []string{"", "a", "/", "a/b"})
 	for _, p := range []string{"?", "a?b", "**", "a**b", "*", "a*b", "?*", "a?"} {
